@@ -157,6 +157,11 @@ func (e *Encoder) writeMultiPolygon(mp orb.MultiPolygon, srid int) error {
 	}
 
 	for _, p := range mp {
+		if p == nil {
+			// the count above includes this member, it must be written (as empty)
+			p = orb.Polygon{}
+		}
+
 		err := e.Encode(p, 0)
 		if err != nil {
 			return err
